@@ -249,20 +249,22 @@ impl<T> AtomicBucket<T> {
                 Ok(_) => return,
                 // The block was full, so we've been given the value back and we need to install a new block.
                 Err(value) => {
+                    // Link the new block to the current tail _before_ publishing it, so that readers which observe
+                    // the new tail can always reach the older blocks through it.
+                    let new_block = Owned::new(Block::new());
+                    new_block.next.store(tail, Ordering::Relaxed);
                     match self.tail.compare_exchange(
                         tail,
-                        Owned::new(Block::new()),
+                        new_block,
                         Ordering::AcqRel,
                         Ordering::Acquire,
                         guard,
                     ) {
-                        // We managed to install the block, so we need to link this new block to
-                        // the nextious block.
+                        // We managed to install the block, which is already linked to the previous block.
                         Ok(ptr) => {
                             #[cfg(metrics_verif)]
                             metrics::verif::point("bucket.push.after_block_cas", 0);
                             let new_tail = unsafe { ptr.deref() };
-                            new_tail.next.store(tail, Ordering::Release);
                             #[cfg(metrics_verif)]
                             metrics::verif::point("bucket.push.after_link", 0);
 
